@@ -122,6 +122,7 @@ pub fn run_script(spec: &ScriptSpec, cfg: &SimConfig, decider: Decider) -> Obser
 }
 
 pub fn history_tail(h: &[Ev], n: usize) -> Vec<Ev> {
+    let n = std::env::var("VERIF_HISTORY_TAIL").ok().and_then(|s| s.parse().ok()).unwrap_or(n);
     h[h.len().saturating_sub(n)..].to_vec()
 }
 
@@ -175,7 +176,7 @@ pub fn check_liveness(obs: &Observed) -> Option<Viol> {
         .procs
         .iter()
         .filter(|p| p.state == "running" || p.state.starts_with("stopped"))
-        .map(|p| format!("pid {} ({})", p.pid, p.state))
+        .map(|p| format!("pid {} ({}; fds {})", p.pid, p.state, p.fds))
         .collect();
     // (A task object may outlive its process - e.g. the task of a process killed
     // while stopped is never polled again - which is invisible to any process;
